@@ -134,6 +134,8 @@ def o_seed(a):
         gtis = [(a['t0'] + 0.2 * a['T'], a['t0'] + 0.4 * a['T']), (a['t0'] + 0.5 * a['T'], a['t0'] + 0.8 * a['T'])]
     elif a.get('gti_layout') == 'unordered':         # a list that is not in chronological order
         gtis = [gtis[1], gtis[0]]
+    elif a.get('gti_layout') == 'empty':             # no good time at all (the whole window occulted): nothing survives
+        gtis = []
     kwargs = simdrive.sim_kwargs(simdrive.config_path('toy_point_source.py'), 'unused.fits', gtis=gtis, start_met=a['t0'], duration=a['T'])
     roi = type('R', (), dict(ra=30., dec=45.))()
     tap = rngtap.Tap()
@@ -154,7 +156,8 @@ def o_seed(a):
     n = int(numpy.rint(norm))
     # the share of the light curve inside the union of the intervals (the energy-integrated count rate, integrated)
     frac = sum(float(cs.light_curve.integral(x, y)) for x, y in gtis) / norm
-    if abs(len(t) / max(n, 1) - frac) > 0.02:
+    # the times are drawn with the live generator: a binomial band of 4.5 sigma (a fixed 0.02 was 1.7 sigma for 1400 events)
+    if abs(len(t) / max(n, 1) - frac) > 4.5 * math.sqrt(max(frac * (1. - frac), 0.) / max(n, 1)) + 1.5 / max(n, 1):
         bad.append('%d of %d events kept by GTIs %s holding %.3f of the light curve' % (len(t), n, [(x - a['t0'], y - a['t0']) for x, y in gtis], frac))
     return not bad, dict(violated=bad, poisson_mean=lam, norm=norm, kept=len(t))
 
@@ -383,11 +386,11 @@ def explore(chk, budget=1):
     if eps:
         chk.extra['measured_eps_time_max'] = max(e[0] for e in eps)
         chk.extra['measured_eps_energy_max'] = max(e[1] for e in eps)
-    for i in range(3 if quick else 20):
+    for i in range(4 if quick else 20):
         a = gen_spec(g)
         a['kind'] = str(g.choice(['pl', 'pl_t']))
         a['norm'] = float(g.uniform(5., 30.))
-        a['gti_layout'] = ['default', 'late-first', 'unordered'][i % 3]
+        a['gti_layout'] = ['default', 'late-first', 'unordered', 'empty'][i % 4]
         run_oracle(chk, 'seed', a)
     for du in ((int(g.integers(1, 4)),) if quick else (1, 2, 3)):
         run_oracle(chk, 'vign', dict(du=du, seed=int(g.integers(1, 10 ** 6))))
